@@ -229,6 +229,17 @@ func init() {
 			Bounds: "two files, three package layouts, both argument orders",
 			Panic:  "inconclusive"},
 	}})
+	reg(&Property{ID: "C14", Units: []Unit{
+		{Name: "identifierize/symbolic-runes", Harness: "internal/x/text:HarnessC14L1", Layer: "L1",
+			Desc:   "Caser.Identifierize / splitIdentifierByCaseAndSeparators / Capitalize on strings of 1..R symbolic runes; every rune ranges over all realizable attribute vectors of Go's Unicode tables (computed by scanning all 0x110000 code points: IsLower/IsUpper/IsLetter/IsNumber/IsDigit/'_'/'*' of r, ToUpper(r), ToTitle(r), ToLower(r) and map(r)==r); unicode.Is*/To* on symbolic runes are table lookups over the class variable: the result is non-empty, starts with an upper-case letter (exported) and consists of letters, decimal digits and '_' only",
+			Bounds: "R=3 runes quick (R=4 thorough); empty --capitalization list (strings.EqualFold on symbolic runes is not modelled); len() of a symbolic rune string is its rune count (the code only compares it with 0)",
+			Quick:  map[string]int{"R": 3}, Thor: map[string]int{"R": 4},
+			Panic:  "violation"},
+		{Name: "colliding-sibling-names", Harness: "pkg/generator:HarnessC14L3", Layer: "L3",
+			Desc:   "four sets of sibling property names that collide after normalisation (foo/Foo/FOO, a-b/a_b/aB, id/Id/ID/i_d, x1/x_1/X1), with and without --capitalization ID: the emitted struct type-checks (distinct field names), every json tag carries the exact original name exactly once, and a document with all keys (symbolic integers) is accepted",
+			Bounds: "concrete name sets (representatives); per-field value binding is checked only through acceptance of the required keys",
+			Panic:  "inconclusive"},
+	}})
 	reg(&Property{ID: "C12", Units: []Unit{
 		{Name: "map-order-schedules", Harness: "pkg/generator:HarnessC12", Layer: "L3", MapOrd: 5, SameEmits: true,
 			Desc:   "every `range` over a Go map executed in repository code (sites discovered dynamically: sortedKeys, sortDefinitionsByName, Sources, beginOutput, hasDecl...) is a schedule choice; all orders of maps with <= 3 entries are explored and every schedule must emit byte-identical files under identical names (hole terms compared syntactically)",
